@@ -32,7 +32,7 @@ def selftest():
 
 
 def plan(tier, seed):
-    n = 150 if tier == "quick" else 3000
+    n = 150 if tier == "quick" else 40000
     cases = [{"kind": "segment", "seed": seed, "i": i} for i in range(n)]
     cases += [{"kind": "unrestrict", "seed": seed, "i": i} for i in range(n)]
     cases += [{"kind": "prepare", "seed": seed, "i": i} for i in range(n)]
